@@ -337,8 +337,8 @@ class Check(PropertyCheck):
             "small-scope exhaustive two-op histories first, then 60% scenario templates (peer body -> read -> re-assign -> "
             "decode -> re-encode with interleaved noise on other bodies), 30% random ops, 10% raw random bytes. distinct = "
             "distinct history; non-trivial = at least one non-identity codec call or cache hit.")
-    budget = {"quick": 4000, "thorough": 120000}
-    time_budget = {"quick": 25, "thorough": 500}
+    budget = {"quick": 3000, "thorough": 100000}
+    time_budget = {"quick": 25, "thorough": 420}
     fingerprints = ["mitmproxy.net.encoding:decode", "mitmproxy.net.encoding:encode", "mitmproxy.net.encoding:identity",
                     "mitmproxy.net.encoding:decode_gzip", "mitmproxy.net.encoding:encode_gzip",
                     "mitmproxy.net.encoding:decode_deflate", "mitmproxy.net.encoding:encode_deflate",
@@ -349,12 +349,10 @@ class Check(PropertyCheck):
     trusted_base = ["zlib / gzip / brotli / zstd libraries: assumed to satisfy the Codecs laws stated in Model/C31.lean "
                     "(sampled on every run by the reference-decoder oracle, not proved)",
                     "Python codecs registry behaviour for non-custom names enters the model as the supplied `fresh` result"]
-    parallel = True          # thorough tier only, see setup(): the fork pool costs more than it saves on 4 000 histories
+    parallel = False         # measured: one process evaluates ~290-700 histories/s; the fork pool (4-case chunks, large
+                             # observables to pickle) was slower than that on this workload
 
     _memo = (None, None)
-
-    def setup(self, tier):
-        self.parallel = tier == "thorough"
 
     # ---------------- (T) tables from the live source ----------------
     def translate(self):
